@@ -238,8 +238,6 @@ func (l *Lexer) wasEndChar() bool {
 func (l *Lexer) layoutTextSequence(afterLayout bool) (Token, error) {
 	for {
 		switch r, err := l.next(); {
-		case err == io.EOF:
-			return l.token(afterLayout)
 		case err != nil:
 			return Token{}, err
 		case isLayoutChar(r):
